@@ -1,5 +1,6 @@
 // C12 harness: Gudhi::collapse::flag_complex_collapse_edges observed through its public API only.
-// One input line = one weighted graph:  "g u v w u v w ..."  (ints; w an integer filtration value), edges in input order.
+// One input line = one weighted graph:  "g u v w u v w ..."  (ints; w an integer filtration value), edges in input order;
+// "gs u v w ..." feeds the values w/8 instead (non-integer dyadic doubles) and prints the returned values times 8.
 // One answer line:  "ORD i0 i1 ...|RES u v w u v w ..."
 //   ORD = order in which the sweep processes the input edges (indices into the input list):
 //         - default build (Filtration_value = double, documented one-argument entry point): the order produced by
@@ -69,16 +70,18 @@ int main() {
     std::istringstream is(line);
     std::string tag;
     is >> tag;
-    if (tag != "g") { vh::emit("BADLINE"); continue; }
+    // "gs": the same graph with every value divided by 8 (exact dyadic doubles); the answers are printed multiplied by 8
+    const double scale = (tag == "gs") ? 8.0 : 1.0;
+    if (tag != "g" && tag != "gs") { vh::emit("BADLINE"); continue; }
     std::vector<Edge> edges;
     std::map<std::pair<int, int>, int> index;
     long long u, v, w;
     int k = 0;
     while (is >> u >> v >> w) {
 #ifdef C12_TAGGED
-      edges.emplace_back((int)u, (int)v, TV{(double)w, k});
+      edges.emplace_back((int)u, (int)v, TV{(double)w / scale, k});
 #else
-      edges.emplace_back((int)u, (int)v, (double)w);
+      edges.emplace_back((int)u, (int)v, (double)w / scale);
 #endif
       index[{(int)u, (int)v}] = k;
       ++k;
@@ -105,7 +108,7 @@ int main() {
       for (int i : order) ans += " " + std::to_string(i);
       ans += "|RES";
       for (auto& e : res) {
-        ans += " " + std::to_string(std::get<0>(e)) + " " + std::to_string(std::get<1>(e)) + " " + num(fv_val(std::get<2>(e)));
+        ans += " " + std::to_string(std::get<0>(e)) + " " + std::to_string(std::get<1>(e)) + " " + num(fv_val(std::get<2>(e)) * scale);
       }
     } catch (std::exception const& ex) {
       ans = std::string("EXC ") + ex.what();
